@@ -87,7 +87,12 @@ def gen_case(ctx: Ctx, k: int) -> dict[str, Any]:
     # root makes (1, 2 or 3): the same typed edges in every trace, different multiplicities.  Judged like the
     # reorder cases (files and models), the diagrams carry branch counts the Lean semantics does not model.
     fanout = k % 6 == 1
-    names = r.sample(["wf", "order flow", "Billing", "a b c", "x-1"], k=1 if (reorder or fanout) else r.choice([1, 2, 3]))
+    # names with spaces, capitals, dashes, and with characters that mean something to glob / regex when a path built
+    # from the name is taken as a pattern ("ready?" next to "ready1", a bracket group)
+    pool = ["wf", "order flow", "Billing", "a b c", "x-1", "orders[eu]", "ready?", "ready1"]
+    names = r.sample(pool, k=1 if (reorder or fanout) else r.choice([1, 2, 3]))
+    if "ready?" in names and "ready1" not in names and not (reorder or fanout) and len(names) < 3:
+        names.append("ready1")
     async_flag = True if fanout else r.random() < 0.5
     spans: list[dict[str, Any]] = []
     for i, n in enumerate(names):
